@@ -121,6 +121,11 @@ def gen_spec(r):
         cols = r.sample(COLS, r.randint(1, 4))
         spec["columns"] = cols
         spec["select"] = [g.num([src], 1) if r.random() < 0.6 else ("col", src.name, r.choice(COLS), src) for _ in cols]
+        # the statement kind given by a row-less insert() / replace() / insert_or_replace() before the SELECT source
+        spec["form"] = r.choice([None, None, "insert", "replace", "insert_or_replace"])
+        if spec["form"] in ("replace", "insert_or_replace") and "id" not in cols and r.random() < 0.7:
+            spec["columns"] = cols = ["id"] + cols[:3]          # keys that collide with existing rows
+            spec["select"] = [("col", src.name, "id", src)] + spec["select"][:len(cols) - 1]
     elif kind == "update":
         sets = []
         for c in r.sample(COLS, r.randint(1, 4)):
@@ -209,6 +214,8 @@ def to_py(spec):
         sv = S.src_var(spec["src"])
         sel = ".select(%s)" % ", ".join(S.py_expr(e, Q) for e in spec["select"])
         cols = ".columns(%s)" % ", ".join(repr(c) for c in spec["columns"])
+        if spec.get("form"):
+            cols += ".%s()" % spec["form"]
         if br:
             lines.append("p = %s.into(%s)%s.from_(%s)" % (Q, tv, cols, sv))
             lines.append("sibling = p.select(%s.id).where(%s.id == 1)" % (sv, sv))
@@ -252,7 +259,8 @@ def to_ref(spec):
             sql += " VALUES " + ", ".join("(%s)" % ", ".join(S.sql_expr(e) for e in row) for row in spec["rows"])
         elif k == "insert_select":
             src = spec["src"]
-            sql = 'INSERT INTO "%s" (%s) SELECT %s FROM "%s"' % (t.table, ", ".join('"%s"' % c for c in spec["columns"]),
+            head = {"replace": "REPLACE", "insert_or_replace": "INSERT OR REPLACE"}.get(spec.get("form"), "INSERT")
+            sql = head + ' INTO "%s" (%s) SELECT %s FROM "%s"' % (t.table, ", ".join('"%s"' % c for c in spec["columns"]),
                                                               ", ".join(S.sql_expr(e) for e in spec["select"]), src.table)
             if spec["where"] is not None:
                 sql += " WHERE " + S.sql_expr(spec["where"])
